@@ -292,7 +292,7 @@ PROPS = {
         "assumptions": ["faults are injected at driver-call granularity, not inside SQLite (no torn pages, no power loss)"],
     },
     "C07": {
-        "lean_modules": ["MocProps.C07"], "theorem_files": ["MocProps/C07.lean"],
+        "lean_modules": ["MocProps.C07", "MocProps.C07Sched"], "theorem_files": ["MocProps/C07.lean", "MocProps/C07Sched.lean"],
         "gen_groups": ["Router", "Matcher"], "harness_prop": "router", "driver_prop": "router", "race": True,
         "monitors": ["delivery", "reply"],
         "n_quick": 1500, "n_thorough": 15000, "thorough_seeds": 3,
@@ -307,8 +307,12 @@ PROPS = {
                       "visit_enabled); a publish visits a connection at most once (visit_once); REQ/CLOSE/disconnect take effect at once (subscribe_registers, unsubscribe_removes, "
                       "unsubAll_removes_everything); a publish that runs to completion leaves in every connection's queue exactly the owed deliveries (publish_queues, with reg_keys_nodup), and what is owed contains EVENT s e "
                       "exactly once per registered subscription (s, filters) whose filters match and nothing else (owed_count, owed_sound, subsOK_step). "
-                      "Runtime-validated, not proved: that Go's RWMutex/channel runtime realises only LTS schedules; the real-time must/may rule for overlapping operations and per-publisher order are "
-                      "judged on recorded concurrent histories by the monitor of Spec/RouterConc.lean (stream 2).",
+                      "OVER EVERY SCHEDULE of the LTS (any interleaving of enabled steps of any number of connections, C07Sched): a subscription registered when a publish begins and not touched "
+                      "while it is in progress is visited by that publish exactly once, in a state in which it is still registered with the same filters (must_deliver, first_visit, "
+                      "no_second_visit, pending_step, visited_step, subOf_untouched), and that visit appends EVENT s e exactly once iff the filters match (visit_delivers_once); a subscription id "
+                      "not registered at the start and not subscribed later is absent at every later visit (must_not_deliver) - the must / must-not halves of the real-time rule. "
+                      "Runtime-validated, not proved: that Go's RWMutex/channel runtime realises only LTS schedules; the mapping of wall-clock observations (EOSE received, OK received) to LTS "
+                      "positions and per-publisher order are judged on recorded concurrent histories by the monitor of Spec/RouterConc.lean (stream 2).",
         "level_note": "Trusted: Lean kernel + standard axioms; go2lean (bodytext pins); harness/driver; Go's sync.RWMutex, channels and race detector.",
         "assumptions": ["stream 1 is sequentialised by the harness (every operation completes before the next); overlapping operations are exercised by stream 2 and the -race build",
                         "generated filters always name kinds or authors so that barrier events match no generated subscription"],
